@@ -30,11 +30,15 @@ func checkRingLayout() string {
 
 type kElem = kring.Ring[int]
 
+// (checkptr instrumentation of these two accessors was a quarter of the ring run time under -race)
+//
+//go:nocheckptr
 func kLinks(r *kElem) (n, p *kElem) {
 	l := (*rawLinks)(unsafe.Pointer(r))
 	return (*kElem)(l.next), (*kElem)(l.prev)
 }
 
+//go:nocheckptr
 func sLinks(r *cring.Ring) (n, p *cring.Ring) {
 	l := (*rawLinks)(unsafe.Pointer(r))
 	return (*cring.Ring)(l.next), (*cring.Ring)(l.prev)
